@@ -308,8 +308,9 @@ func runClusterPlansAlso(prop string, plans []plan, rep *common.Report, reported
 		}
 		for _, f := range res.Founds {
 			for _, a := range also {
-				if f.V.Property == a {
-					f.V.Signature = a + "/" + f.V.Signature
+				ap, pre, _ := strings.Cut(a, ":")
+				if f.V.Property == ap && strings.HasPrefix(f.V.Signature, pre) {
+					f.V.Signature = ap + "/" + f.V.Signature
 					f.V.Property = prop
 				}
 			}
